@@ -766,22 +766,21 @@ _ENTRY = {"setA": "argvals.setter", "setV": "values.setter", "setS": "argvals_st
           "gi": "__getitem__", "gs": "__getitem__", "ga": "__getitem__", "cat": "concatenate"}
 
 
-def oracle(case, impl):
-    if "__crash__" in impl:
-        return [dict(clause="runs", entry="history", msg=f"crash {impl['__crash__']}: {impl.get('msg')} {impl.get('tb', '')[-300:]}")]
+def _judge(ops, steps):
+    """The property's predicate on one replayed history (list of violations)."""
     vs = []
     prev_bad = []
-    for k, st in enumerate(impl["steps"]):
-        op = case["ops"][k][0]
+    for k, st in enumerate(steps):
+        op = ops[k][0]
         entry = _ENTRY.get(op, op)
-        desc = " ".join(case["ops"][k])[:160]
+        desc = " ".join(ops[k])[:160]
         if st["out"] not in ("ok", "na"):
             if not st["unchanged"]:
-                vs.append(dict(clause="reject_unchanged", entry=entry, causes=["state_changed_on_error"],
+                vs.append(dict(clause="reject_unchanged", entry=entry, causes=["state_changed_on_error"], step=k,
                                msg=f"step {k} `{desc}` raised {st['out']} but the object changed to {st['state']}"))
             allowed = {"TypeError", "ValueError"} | ({"IndexError"} if op in _RANGE_OPS else set())
-            if st["out"] not in allowed and not (st["out"] == "Other" and _empty_irregular_involved(case, impl, k)):
-                vs.append(dict(clause="reject_class", entry=entry, causes=["class_" + st["out"]],
+            if st["out"] not in allowed and not (st["out"] == "Other" and _empty_irregular_involved(ops, steps, k)):
+                vs.append(dict(clause="reject_class", entry=entry, causes=["class_" + st["out"]], step=k,
                                msg=f"step {k} `{desc}` was rejected with {st['out']}"))
         new_bad = [b for b in st["bad"] if b not in prev_bad]
         for b in new_bad:
@@ -790,16 +789,56 @@ def oracle(case, impl):
                 causes.append("mismatched_stand_accepted")
             if b == "same_nobs":
                 causes.append("nobs_mismatch_accepted_by_" + op)
-            vs.append(dict(clause=b, entry=entry, causes=causes,
+            vs.append(dict(clause=b, entry=entry, causes=causes, step=k,
                            msg=f"step {k} `{desc}` left the object inconsistent ({b}): {st['state']} | {st['obs']}"))
         prev_bad = st["bad"]
     return vs
 
 
-def _empty_irregular_involved(case, impl, k):
+_SHRUNK = [0]
+
+
+def _shrink(ops, clause, entry):
+    """Delta debugging (one-minimal): drop operations while the same clause still fails at the same entry point."""
+    def fails(seq):
+        if not seq:
+            return False
+        try:
+            _, steps = run_history(seq)
+        except Exception:  # noqa: BLE001
+            return False
+        return any(v["clause"] == clause and v["entry"] == entry for v in _judge(seq, steps))
+
+    cur = list(ops)
+    changed = True
+    while changed and len(cur) > 1:
+        changed = False
+        for k in range(len(cur) - 1, -1, -1):
+            cand = cur[:k] + cur[k + 1:]
+            if fails(cand):
+                cur = cand
+                changed = True
+    return cur
+
+
+def oracle(case, impl):
+    if "__crash__" in impl:
+        return [dict(clause="runs", entry="history", msg=f"crash {impl['__crash__']}: {impl.get('msg')} {impl.get('tb', '')[-300:]}")]
+    vs = _judge(case["ops"], impl["steps"])
+    for v in vs:
+        v.pop("step", None)
+        if len(case["ops"]) > 3 and _SHRUNK[0] < 12 and not (v["clause"] == "stand_tracks" and "mismatched_stand_accepted" in v["causes"]):
+            _SHRUNK[0] += 1
+            common.use_repo()
+            small = _shrink(case["ops"], v["clause"], v["entry"])
+            v["msg"] += " || shrunk history (" + str(len(small)) + " ops): " + " ; ".join(" ".join(o) for o in small)
+    return vs
+
+
+def _empty_irregular_involved(ops, steps, k):
     """`n_dimension` of an empty irregular dataset raises StopIteration (not judged, see PARTIAL)."""
-    toks = case["ops"][k]
-    prev = impl["steps"][k - 1]["state"] if k else "E"
+    toks = ops[k]
+    prev = steps[k - 1]["state"] if k else "E"
     return "I:a=-:" in prev or " ia 0 " in " ".join(toks) + " "
 
 
